@@ -8,18 +8,47 @@ COMMON_NOTE = ('trusted: Coq 8.16.1 kernel (vm_compute only for finite tables/ex
                'Print Assumptions in the evidence; extraction (ExtrOcamlBasic, ExtrOCamlFloats, ExtrOCamlInt63, no hand-written directives), '
                'the OCaml driver, the translators and the C++ harness (DESIGN.md section 8)')
 CLAIMS = {
+ 'C01': ('proof', 'directed variants (general and assortative): ascent of the Poisson log-likelihood over one sweep and along trajectories proved over exact reals for every graph the builder produces (minorise-maximise lemma, three block instantiations, chained); undirected variants: the two half-steps are proved (C01_undirected_partial) and the full claim is REFUTED in the model for asymmetric affinities (C01_refuted_undirected_asym) -- the witness reproduces on the implementation and is a known finding, as is the second class (skipped affinity update); an ascent monitor runs on implementation steps in every check',
+         'Coq proof (minorise-maximise, exact reals) + refutation witness + bit-exact correspondence + ascent monitor on the implementation',
+         'PARTIAL for the undirected variants (half-steps only; two known findings in known_findings.txt); binary64 rounding not verified (monitor tolerance 1e-9)'),
+ 'C02': ('proof', 'sweep_gen / sweep_ass (code-shaped: adjacency lists, vertex lists, C++ evaluation order) proved EQUAL over exact reals to the dense published equations em_sweep_* of Spec.v, in the documented order, for all four code paths, under the invariants every reachable state satisfies (proved preserved); the three update functions and the composed loop are compared bit-for-bit with the extracted float model on states aimed at every guard',
+         'Coq proof (model = dense published equations) + per-function bit-exact correspondence + reference-equation oracle',
+         'binary64 rounding not verified (oracle: 1e-10 relative against python reference equations; threshold-ambiguous cases set aside and counted)'),
+ 'C03': ('proof', 'labels, shapes, zero rows, report length proved for the whole entry point for every arithmetic; non-negativity and "every division/logarithm sits under a guard > 1e-6" proved over exact reals; implementation results on degenerate inputs checked by direct predicate',
+         'Coq proof (structural invariants through run + exact-real non-negativity/guards) + correspondence + result predicate',
+         'overflow to +-inf in binary64 is NOT verified (no magnitude bound): finiteness of implementation outputs is only tested'),
  'C04': ('proof', 'C04_select / C04_argmax_first / C04_report / C04_prefix proved for every arithmetic, sweep, likelihood and r (invariant of the r-fold over the explicit buffers); the real swap/max_L2 code is driven with every weak ordering of <= 4 scripted likelihoods and compared bit-for-bit with the extracted model',
          'Coq proof (fold invariant) + scripted-likelihood correspondence, exhaustive over orderings', 'NaN likelihoods are excluded from the argmax theorem by hypothesis; std::swap/std::max_element modelled'),
  'C05': ('proof', 'C05_stop proved for all maxit, nconv and every pass/fail sequence (induction on fuel against a declarative specification); period and thresholds re-translated from the source on every run; the real loop is driven with scripted likelihood sequences (all patterns up to a bound, boundary values) and compared with the extracted model',
          'Coq proof (loop invariant vs declarative spec) + scripted-likelihood correspondence', 'IEEE semantics of the relative-change expression are those of Coq primitive floats (checked bit-exactly on every case)'),
+ 'C06': ('proof', 'the triple loop of calculate_likelyhood proved equal to sum A ln M - M over exact reals (general guard form and the plain formula when observed rates exceed 1e-6), for both tensor types and directions; the cadence (which evaluation is reported) proved for every arithmetic; likelihood compared bit-for-bit with the extracted model (ln := glibc log)',
+         'Coq proof (closed form of the fold; cadence from the loop invariant) + bit-exact correspondence + independent formula oracle', 'libm log accuracy and binary64 rounding not verified (oracle 1e-9 relative)'),
  'C07': ('proof', 'independence of the model\'s result from the prior contents of the output containers is proved (C07_prior_independent*, with the necessary proviso made explicit); that the model\'s signature is faithful is checked by bit-exact correspondence on shuffled sequences of calls in one process, pre-filled outputs and fresh processes',
          'Coq proof (buffer agreement invariant) + sequence/prior-content correspondence', 'reads of uninitialised memory and hidden static state cannot be exhibited by a Gallina model: sanitizers + repeat/interleave/pre-fill oracle only'),
  'C08': ('proof', 'vertex bijection in first-appearance order, edge multiplicities (directed and undirected), expansion of integer weights into unit records (equality of the built networks), source/target lists, index bounds -- proved for all edge lists; boost-built networks compared in order with the extracted model exhaustively on the small family and on random lists with three label types and three weight types',
          'Coq proof (builder invariant over fold_left) + exhaustive/random correspondence with boost', 'boost append order, std::map as association list, ceil loop for real weights are modelled'),
+ 'C09': ('proof', 'per-layer mass identity INCLUDING the truncation term (expected = observed - snapped mass, 0 <= snapped mass <= 1e-6 * sum Du * sum Dv) proved over exact reals for all four code paths from the property\'s preconditions (i)-(iii); update_affinity compared bit-for-bit with the extracted model; per-layer mass checked on implementation steps',
+         'Coq proof (responsibilities sum to one per edge; truncation bookkeeping) + correspondence + mass oracle', 'binary64 rounding not verified (oracle 1e-9 relative)'),
+ 'C10': ('proof', 'sweep_gen on the embedded diagonal tensor = embedding of sweep_ass, likelihoods equal, any number of iterations, off-diagonals exactly zero -- proved over exact reals for both directions; paired implementation runs iterated from the same start compared within 1e-10 with exact-zero off-diagonals',
+         'Coq proof (Kronecker collapse of the general sums) + paired-state correspondence', 'binary64: the two code paths nest their sums differently; agreement within 1e-10 is tested, not proved'),
+ 'C11': ('proof', 'orientation-blindness (any subset of records reversed, first appearance unchanged) and the untouched / unread in-membership argument proved for the whole entry point and every arithmetic; symmetry of the affinity from the random start proved over exact reals (permutation of the oriented edge multiset); reversed pairs, sentinel v and symmetry checked on the implementation',
+         'Coq proof (commuting appends; buffer invariant; permutation reindexing) + reversed-pair / sentinel correspondence', 'rounding makes the symmetry approximate in binary64 (oracle 1e-10)'),
  'C12': ('proof', 'factorize commutes with every injective relabelling, also across label types (C12_relabel), proved at the level of the whole entry point; implementation pairs under order-reversing/sparse/negative/string relabellings compared bit-for-bit',
          'Coq proof (relabelling invariant of the builder lifted to factorize) + relabelled-pair correspondence', 'only label equality is used by the model; ordering-dependence of std::map would surface as a correspondence mismatch'),
+ 'C13': ('proof', 'byte-level adjacency reader proved to invert every rendering of the documented grammar (unbounded); option block, selection table, call arguments and writers re-translated from multitensor.cpp on every run and proved canonical; the real binary is compared file-by-file with the library for all 8 flag combinations and all options',
+         'Coq proof (parser round trip over bytes; finite tables over translated source) + real-binary vs library comparison', 'iostream extraction outside the grammar, operator<<(double) and the file system are modelled/abstract'),
+ 'C14': ('proof', 'affinity reader (token level) proved to write d_k exactly at (k,k,layer) and nothing else, to keep the vector length, and to reject every shape mismatch; start = cached file tensor + 0.1 x draw and the cache is never replaced (every realization restarts from the file) proved for every arithmetic; in-process reader and start states compared with the extracted model for K = 2..5, L = 1..4',
+         'Coq proof (reader positions/rejection; initialiser cache) + in-process reader correspondence', 'iostream extraction of doubles is abstract (pre-parsed numeric tokens); Python loader: source text only'),
+ 'C15': ('proof', 'validate = Accept iff shape_consistent (unbounded over sizes, incl. the integer square root), error code <-> first failing check, error => no result / accept => never fails later -- proved; boundary sweep of the real entry point (outputs compared with prior contents after a throw) and the real binary on invalid configurations',
+         'Coq proof (validation chain vs declarative predicate) + boundary-sweep correspondence + CLI exit/dir check', 'sizes < 2^52 assumed for sqrt on double'),
+ 'C16': ('other', 'PARTIAL by nature: index-range obligations (tensor positions, vertex indices, affinity-reader writes for all token contents, membership shape) are Coq theorems; everything else (use-after-free, leaks, wrap-around, boost/iostream internals) is explored only by running every component and malformed-file streams under ASan+UBSan+LSan with assertions',
+         'Coq proof for index ranges + sanitizer exploration (not a proof) for the runtime half', 'the runtime half is exploration only; GCC -fsanitize=undefined excludes float-cast-overflow'),
+ 'C17': ('proof', 'exact stream consumption and positional layout of every initialiser, consecutive disjoint segments per realization, zero rows, symmetry and one draw per unordered pair (bijection) -- proved for every arithmetic; the driver\'s mt19937/uniform stream is compared with libstdc++ and start states with an independent reference stream',
+         'Coq proof (stream threading through folds) + K-RNG/K-INIT correspondence', 'libstdc++ engine/distribution are trusted (the stream is an input of the model)'),
  'C18': ('proof', 'layout theorems (formula, range, bijection, transpose, flat affinity vector, writer positions) proved for all dimensions; the C++ index expressions are re-translated from the source on every run and the real accessors/writer are compared exhaustively (<= 6) with the extracted model',
          'Coq proof over regenerated index expressions + exhaustive model/implementation correspondence', 'Python reshape in multitensor.pyx is not executed (extension not built here)'),
+ 'C19': ('proof', 'over the table re-translated from multitensor.pyx on every run: for all 16 argument combinations exactly one block fires, with the expected instantiation, allocation of v and arguments; v is None unless directed; agreement with the command line table (finite: case analysis + vm_compute)',
+         'Coq proof over the translated dispatch table (exhaustive, finite)', 'NO runtime correspondence: the Cython extension is not built here; the tie is the translator (self-tested by built-in mutations)'),
 }
 man = {
  'version': 1,
